@@ -171,12 +171,14 @@ private:
     Item* item = freeItem;
     if(!item)
     {
-      ItemBlock* itemBlock = (ItemBlock*)new char[sizeof(ItemBlock) + (sizeof(Item) + sizeof(T)) * 4];
+      // every item header has to be aligned: round the item size up (sizeof(T) need not be a multiple of the pointer size)
+      const usize itemSize = (sizeof(Item) + sizeof(T) + sizeof(void*) - 1) / sizeof(void*) * sizeof(void*);
+      ItemBlock* itemBlock = (ItemBlock*)new char[sizeof(ItemBlock) + itemSize * 4];
       itemBlock->next = blocks;
       blocks = itemBlock;
-      for(Item* i = (Item*)(itemBlock + 1), * end = (Item*)((char*)i + 4 * (sizeof(Item) + sizeof(T)));
+      for(Item* i = (Item*)(itemBlock + 1), * end = (Item*)((char*)i + 4 * itemSize);
         i < end; 
-        i = (Item*)((char*)i + (sizeof(Item) + sizeof(T))))
+        i = (Item*)((char*)i + itemSize))
       {
         i->prev = item;
         item = i;
